@@ -281,8 +281,20 @@ def replay_in_fresh_process(prop, path, hashseed="4242"):
 # evidence
 
 
+def _strict(obj):
+    """Non-finite floats as strings, so that the evidence file is strict JSON."""
+    if isinstance(obj, float) and (obj != obj or obj in (float("inf"), float("-inf"))):  # noqa: PLR0124
+        return repr(obj)
+    if isinstance(obj, dict):
+        return {str(k): _strict(v) for k, v in obj.items()}
+    if isinstance(obj, (list, tuple)):
+        return [_strict(v) for v in obj]
+    return obj
+
+
 def write_evidence(prop, tier, seed, level, coverage, assumptions, wall_s, violations):
     os.makedirs(EVIDENCE_DIR, exist_ok=True)
+    coverage = _strict(coverage)
     doc = {
         "property_id": prop,
         "tier": tier,
@@ -295,7 +307,7 @@ def write_evidence(prop, tier, seed, level, coverage, assumptions, wall_s, viola
     }
     path = os.path.join(EVIDENCE_DIR, f"{prop}.json")
     with open(path, "w", encoding="utf-8") as fobj:
-        json.dump(doc, fobj, indent=1, sort_keys=True)
+        json.dump(doc, fobj, indent=1, sort_keys=True, allow_nan=False)
     return path
 
 
